@@ -310,7 +310,7 @@ pub fn gen_driver(prop: &str, rng: &mut Rng, sh: &mut Shards, out: &str, thoroug
                 for gi in 0..ngroups {
                     let seg: u16 = if gi == 0 && rng.chance(1, 2) { 0 } else {
                         let s = *rng.pick(&[0u16, 1, 0x10, 0x0FFF, 0x1000, 0x8000, 0xF000, 0xFFF0, 0xFFFF, 0xFFFE]);
-                        data.push(DataItem::Set(s));
+                        data.push(DataItem::Set(s as u32));
                         s
                     };
                     segs_used.push(seg);
@@ -374,6 +374,73 @@ pub fn gen_driver(prop: &str, rng: &mut Rng, sh: &mut Shards, out: &str, thoroug
                 progs.push((p, lay));
             }
         }
+        "C14" => {
+            let nbase = 60 * scale;
+            for i in 0..nbase {
+                let mut g = Gen::new(rng);
+                let mut k = Knobs::control();
+                k.blocks = 3 + (i % 6);
+                k.macros = false;
+                k.prints = i % 2 == 0;
+                let mut base = g.program(&k);
+                // make sure there is something of every kind to mutate
+                if !base.data.iter().any(|d| matches!(d, DataItem::Def { label: Some(_), .. })) {
+                    base.data.push(DataItem::Def { label: Some("dvar_Q".into()), dir: "dw", form: DataForm::Num(5) });
+                }
+                base.items.push(Item::Ins(Ins::Jcc { mn: "jmp", label: "tail_Z".into(), target: 0 }));
+                base.items.push(Item::Ins(Ins::Mov { w: 8, dst: Opnd::Reg8("al"), src: Opnd::Imm(200) }));
+                base.items.push(Item::Ins(Ins::BinArith { op: "add", w: 16, dst: Opnd::Reg16("bx"), src: Opnd::Imm(-7) }));
+                base.items.push(Item::Label("tail_Z".into()));
+                base.items.push(Item::Ins(Ins::Ctl { op: "nop" }));
+                // the unmutated original must run (vacuity guard)
+                progs.push((base.clone(), Layout::plain()));
+                for m in 0..crate::checks3::MUTATIONS {
+                    if let Some(mut p) = mutate(&base, m, rng) {
+                        p.note = format!("mutation-{}", m);
+                        progs.push((p, Layout::plain()));
+                    }
+                }
+            }
+            // boundary values of every constant range: the inside must be accepted, one step outside refused
+            for (w, vals) in [(8u8, vec![-129i32, -128, -1, 0, 255, 256]), (16u8, vec![-32769, -32768, -1, 0, 65535, 65536])] {
+                for v in vals {
+                    let r = if w == 8 { Opnd::Reg8("dl") } else { Opnd::Reg16("dx") };
+                    let m = Opnd::Mem { seg: "", base: "", index: "", disp: 0x3000, has_disp: true };
+                    let cases: Vec<Ins> = vec![
+                        Ins::Mov { w, dst: r.clone(), src: Opnd::Imm(v) },
+                        Ins::Mov { w, dst: m.clone(), src: Opnd::Imm(v) },
+                        Ins::BinArith { op: "sub", w, dst: r.clone(), src: Opnd::Imm(v) },
+                        Ins::BinArith { op: "cmp", w, dst: m.clone(), src: Opnd::Imm(v) },
+                        Ins::Logic { op: "xor", w, dst: r.clone(), src: Opnd::Imm(v) },
+                        Ins::Logic { op: "test", w, dst: m.clone(), src: Opnd::Imm(v) },
+                    ];
+                    for ins in cases {
+                        progs.push((Program { data: vec![], items: vec![Item::Label("start".into()), Item::Ins(ins)], interp: false, stdin: vec![], note: format!("boundary-{}-{}", w, v) }, Layout::plain()));
+                    }
+                    let dir: &'static str = if w == 8 { "db" } else { "dw" };
+                    for form in [DataForm::Num(v), DataForm::Fill(v, 2)] {
+                        progs.push((Program { data: vec![DataItem::Def { label: Some("bv".into()), dir, form }], items: vec![Item::Label("start".into()), Item::Ins(Ins::Ctl { op: "nop" })], interp: false, stdin: vec![], note: format!("boundary-data-{}-{}", w, v) }, Layout::plain()));
+                    }
+                }
+            }
+            for v in [0i32, 1, 255, 256] {
+                progs.push((Program { data: vec![], items: vec![Item::Label("start".into()), Item::Ins(Ins::Shift { op: "rol", mn: "rol", w: 16, dst: Opnd::Reg16("ax"), cnt: Cnt::Imm(v as u32) })], interp: false, stdin: vec![], note: format!("boundary-count-{}", v) }, Layout::plain()));
+            }
+            for v in [-32769i32, -32768, 65535, 65536] {
+                let m = Opnd::Mem { seg: "", base: "bx", index: "", disp: v, has_disp: true };
+                progs.push((Program { data: vec![], items: vec![Item::Label("start".into()), Item::Ins(Ins::Mov { w: 16, dst: Opnd::Reg16("ax"), src: m })], interp: false, stdin: vec![], note: format!("boundary-disp-{}", v) }, Layout::plain()));
+            }
+            for v in [-1i32, 0, 65535, 65536] {
+                let m = Opnd::Mem { seg: "", base: "", index: "", disp: v, has_disp: true };
+                progs.push((Program { data: vec![], items: vec![Item::Label("start".into()), Item::Ins(Ins::Mov { w: 16, dst: Opnd::Reg16("ax"), src: m })], interp: false, stdin: vec![], note: format!("boundary-direct-{}", v) }, Layout::plain()));
+            }
+            for v in [0u32, 65535, 65536] {
+                progs.push((Program { data: vec![DataItem::Set(v), DataItem::Def { label: None, dir: "db", form: DataForm::Zero(v) }], items: vec![Item::Label("start".into()), Item::Ins(Ins::Ctl { op: "nop" })], interp: false, stdin: vec![], note: format!("boundary-set-{}", v) }, Layout::plain()));
+            }
+            for n in [0u32, 2, 3, 4, 0x10, 0x11, 0x20, 0x21, 0x22, 255] {
+                progs.push((Program { data: vec![], items: vec![Item::Label("start".into()), Item::Ins(Ins::Mov { w: 16, dst: Opnd::Reg16("ax"), src: Opnd::Imm(0x0200) }), Item::Ins(Ins::Int { n })], interp: false, stdin: vec![], note: format!("boundary-int-{}", n) }, Layout::plain()));
+            }
+        }
         _ => panic!("harness: no driver workload for {}", prop),
     }
     // degenerate shapes: nothing after `start:`, only a halt, a label as the very last thing,
@@ -404,4 +471,177 @@ pub fn gen_driver(prop: &str, rng: &mut Rng, sh: &mut Shards, out: &str, thoroug
     if std::env::var("VERIF_KEEP_SRC").is_err() {
         let _ = std::fs::remove_dir_all(&dir);
     }
+}
+
+pub const MUTATIONS: usize = 22;
+
+fn all_ins_mut<'a>(items: &'a mut Vec<Item>, out: &mut Vec<&'a mut Ins>) {
+    for it in items.iter_mut() {
+        match it {
+            Item::Ins(i) => out.push(i),
+            Item::Proc { body, .. } => all_ins_mut(body, out),
+            _ => {}
+        }
+    }
+}
+
+/// one single semantic mutation of a valid program; None when the mutation does not apply
+pub fn mutate(base: &Program, m: usize, rng: &mut Rng) -> Option<Program> {
+    let mut p = base.clone();
+    let data_label: Option<String> = p.data.iter().find_map(|d| match d { DataItem::Def { label: Some(l), .. } => Some(l.clone()), _ => None });
+    let unsupported = ["in al, 5", "out 5, al", "lds ax, [bx]", "les bx, [si]", "into", "iret", "wait", "lock", "esc", "int 5", "int 0", "movsb", "dd 5", "pop cs", "mov ax, byte [bx]", "mov al, word [0]", "xchg ax, 5", "lea ax, bx", "push al", "push 5", "mov ds, 5", "inc 5", "mov 5, ax", "add word [bx], word [si]"];
+    match m {
+        0 => {
+            // drop the definition of a code label that is used
+            let pos = p.items.iter().position(|x| matches!(x, Item::Label(n) if n == "tail_Z"))?;
+            p.items.remove(pos);
+        }
+        1 => {
+            // define a code label twice
+            p.items.push(Item::Label("tail_Z".into()));
+            p.items.push(Item::Ins(Ins::Ctl { op: "nop" }));
+        }
+        2 => {
+            // jump to a data label
+            let l = data_label?;
+            p.items.push(Item::Ins(Ins::Jcc { mn: *rng.pick(&["jmp", "jz", "loop", "jcxz"]), label: l, target: 0 }));
+        }
+        3 => {
+            // mixed operand sizes
+            let ins = match rng.below(4) {
+                0 => Ins::Mov { w: 8, dst: Opnd::Reg8("al"), src: Opnd::Reg16("bx") },
+                1 => Ins::BinArith { op: "add", w: 16, dst: Opnd::Reg16("ax"), src: Opnd::Reg8("bl") },
+                2 => Ins::Xchg { w: 16, a: Opnd::Reg16("cx"), b: Opnd::Reg8("dl") },
+                _ => Ins::Logic { op: "and", w: 8, dst: Opnd::Reg8("dh"), src: Opnd::Reg16("si") },
+            };
+            p.items.push(Item::Ins(ins));
+        }
+        4 => {
+            // a constant one step outside its range
+            let ins = match rng.below(8) {
+                0 => Ins::Mov { w: 8, dst: Opnd::Reg8("al"), src: Opnd::Imm(256) },
+                1 => Ins::Mov { w: 8, dst: Opnd::Reg8("al"), src: Opnd::Imm(-129) },
+                2 => Ins::BinArith { op: "add", w: 16, dst: Opnd::Reg16("bx"), src: Opnd::Imm(65536) },
+                3 => Ins::BinArith { op: "sbb", w: 16, dst: Opnd::Reg16("bx"), src: Opnd::Imm(-32769) },
+                4 => Ins::Logic { op: "or", w: 8, dst: Opnd::Reg8("bl"), src: Opnd::Imm(-1) },
+                5 => Ins::Shift { op: "sal", mn: "shl", w: 8, dst: Opnd::Reg8("bl"), cnt: Cnt::Imm(256) },
+                6 => Ins::Logic { op: "and", w: 16, dst: Opnd::Reg16("dx"), src: Opnd::Imm(65536) },
+                _ => Ins::Mov { w: 16, dst: Opnd::Mem { seg: "", base: "", index: "", disp: 70000, has_disp: true }, src: Opnd::Reg16("ax") },
+            };
+            p.items.push(Item::Ins(ins));
+        }
+        5 => {
+            let t = *rng.pick(&unsupported);
+            p.items.push(Item::Ins(Ins::Unsupported { text: t.to_string() }));
+        }
+        6 => {
+            // no code label `start`
+            let pos = p.items.iter().position(|x| matches!(x, Item::Label(n) if n == "start"))?;
+            if rng.chance(1, 2) { p.items.remove(pos); } else { p.items[pos] = Item::Label(rng.pick(&["Start", "START", "start_", "_start"]).to_string()); }
+        }
+        7 => {
+            // two memory operands
+            let a = Opnd::Mem { seg: "", base: "bx", index: "", disp: 0, has_disp: false };
+            let b = Opnd::Mem { seg: "", base: "", index: "si", disp: 2, has_disp: true };
+            let w = if rng.chance(1, 2) { 8 } else { 16 };
+            let ins = match rng.below(3) { 0 => Ins::Mov { w, dst: a, src: b }, 1 => Ins::BinArith { op: "cmp", w, dst: a, src: b }, _ => Ins::Xchg { w, a, b } };
+            p.items.push(Item::Ins(ins));
+        }
+        8 => {
+            // a data operand naming a code label
+            p.items.push(Item::Ins(Ins::Mov { w: 16, dst: Opnd::Reg16("ax"), src: Opnd::Label { name: "tail_Z".into(), off: 0 } }));
+        }
+        9 => {
+            // a data operand / OFFSET naming nothing
+            let ins = if rng.chance(1, 2) { Ins::UnArith { op: "inc", w: 8, dst: Opnd::Label { name: "nosuch_V".into(), off: 0 } } } else { Ins::Mov { w: 16, dst: Opnd::Reg16("ax"), src: Opnd::Offset { name: "nosuch_V".into(), off: 0 } } };
+            p.items.push(Item::Ins(ins));
+        }
+        10 => {
+            // OFFSET of a code label
+            p.items.push(Item::Ins(Ins::Mov { w: 16, dst: Opnd::Reg16("si"), src: Opnd::Offset { name: "start".into(), off: 0 } }));
+        }
+        11 => {
+            // call of something that is not a procedure
+            let n = *rng.pick(&["tail_Z", "start", "nosuch_P"]);
+            p.items.push(Item::Ins(Ins::Call { name: n.to_string(), target: 0 }));
+        }
+        12 => {
+            // call of a procedure that is only defined later
+            p.items.push(Item::Ins(Ins::Call { name: "late_P".into(), target: 0 }));
+            p.items.push(Item::Ins(Ins::Ctl { op: "hlt" }));
+            p.items.push(Item::Proc { name: "late_P".into(), body: vec![Item::Ins(Ins::Ctl { op: "nop" })] });
+        }
+        13 => {
+            // a procedure defined twice
+            let body = vec![Item::Ins(Ins::Ctl { op: "nop" })];
+            p.items.insert(0, Item::Proc { name: "dup_P".into(), body: body.clone() });
+            p.items.insert(1, Item::Proc { name: "dup_P".into(), body });
+        }
+        14 => {
+            // a data definition out of range
+            let d = match rng.below(5) {
+                0 => DataItem::Def { label: None, dir: "db", form: DataForm::Num(256) },
+                1 => DataItem::Def { label: None, dir: "dw", form: DataForm::Num(65536) },
+                2 => DataItem::Set(65536),
+                3 => DataItem::Def { label: None, dir: "db", form: DataForm::Zero(65536) },
+                _ => DataItem::Def { label: None, dir: "dw", form: DataForm::Fill(-32769, 2) },
+            };
+            p.data.push(d);
+        }
+        15 => {
+            // a data label defined twice / a data label and a code label with one name
+            let l = data_label?;
+            if rng.chance(1, 2) { p.data.push(DataItem::Def { label: Some(l), dir: "db", form: DataForm::Num(1) }); } else { p.items.push(Item::Label(l)); }
+        }
+        16 => {
+            // jump to a label that is defined nowhere (and nothing else wrong)
+            p.items.push(Item::Ins(Ins::Jcc { mn: *rng.pick(&["jmp", "jne", "loope"]), label: "nosuch_L".into(), target: 0 }));
+        }
+        17 => {
+            // unsupported interrupt number
+            p.items.push(Item::Ins(Ins::Int { n: *rng.pick(&[0u32, 1, 2, 4, 0x11, 0x20, 0x22, 255]) }));
+        }
+        18 => {
+            // an operand of the wrong kind inside an existing instruction: make a register operand the wrong width
+            let mut v: Vec<&mut Ins> = Vec::new();
+            all_ins_mut(&mut p.items, &mut v);
+            let mut done = false;
+            for i in v {
+                if let Ins::BinArith { w, src, .. } | Ins::Logic { w, src, .. } | Ins::Mov { w, src, .. } = i {
+                    if let Opnd::Reg8(_) = src { *src = Opnd::Reg16("bp"); done = true; let _ = w; break; }
+                    if let Opnd::Reg16(_) = src { *src = Opnd::Reg8("ch"); done = true; break; }
+                }
+            }
+            if !done { return None; }
+        }
+        19 => {
+            // an immediate pushed out of range inside an existing instruction
+            let mut v: Vec<&mut Ins> = Vec::new();
+            all_ins_mut(&mut p.items, &mut v);
+            let mut done = false;
+            for i in v {
+                if let Ins::BinArith { w, src: Opnd::Imm(x), .. } | Ins::Mov { w, src: Opnd::Imm(x), .. } = i {
+                    *x = if *w == 8 { if rng.chance(1, 2) { 256 } else { -129 } } else if rng.chance(1, 2) { 65536 } else { -32769 };
+                    done = true;
+                    break;
+                }
+            }
+            if !done { return None; }
+        }
+        20 => {
+            // print statement inside a procedure / unknown print form
+            if rng.chance(1, 2) {
+                p.items.insert(0, Item::Proc { name: "prt_P".into(), body: vec![Item::Ins(Ins::Print { what: PrintWhat::Reg })] });
+            } else {
+                p.items.push(Item::Ins(Ins::Print { what: PrintWhat::Span(0xFFFF0, 0x10) }));
+            }
+        }
+        _ => {
+            // `start` defined as a data label only
+            let pos = p.items.iter().position(|x| matches!(x, Item::Label(n) if n == "start"))?;
+            p.items.remove(pos);
+            p.data.push(DataItem::Def { label: Some("start".into()), dir: "db", form: DataForm::Num(1) });
+        }
+    }
+    Some(p)
 }
